@@ -131,6 +131,7 @@ QUICK = [
     ['A1 A1', 'A1', 'PURGE'],
     ['P1 P1', 'P1', 'PURGE'],
     ['S1 S1', 'S1', 'PURGE'],
+    ['P1', 'P1+', 'PURGE'],
     ['A1+', 'A1u+', 'PURGE'],
     ['S1+ T1+', 'S1+', 'PURGE'],
     ['P1 P2', 'PURGE', 'P1'],
